@@ -118,6 +118,8 @@ fn run_schedule(kind: StoreKind, cap: usize, clean: bool, progs: &[Vec<Rq>], sch
     };
     for &a in schedule {
         step += 1;
+        // stall action: nothing is scheduled for STALL_MS of real time (a starved limiter task / a deep backlog)
+        if a == usize::MAX { std::thread::sleep(Duration::from_millis(STALL_MS.load(std::sync::atomic::Ordering::SeqCst))); continue; }
         if a < k { poll_client(&mut cl[a], step, &mut cx, &handle); }
         else if a == k { if !actor_done { match std::panic::catch_unwind(std::panic::AssertUnwindSafe(|| actor.as_mut().poll(&mut cx))) { Ok(Poll::Ready(())) => actor_done = true, Ok(Poll::Pending) => {}, Err(_) => { actor_done = true; panicked = true; } } } }
         else {
@@ -253,8 +255,14 @@ fn emit(kind: StoreKind, cap: usize, clean: bool, progs: &[Vec<Rq>], schedule: &
         kind, p.join(","), sch.join(","), o.dequeued, o.ok, o.ok_without_cancel.map(|b| b.to_string()).unwrap_or("null".into()), o.what, ord.join(","), ans.join(","), canc.join(","), o.steps);
 }
 
+static STALL_MS: std::sync::atomic::AtomicU64 = std::sync::atomic::AtomicU64::new(1300);
+
 fn main() {
     tcv_srv::watchdog::start(arg_u64("--call-limit-ms", 8000));
+    // a runtime context with the time driver, so that code under test that arms a timer (tokio::time::timeout, sleep) works
+    // under the explicit scheduler instead of panicking; one worker thread turns the timer wheel in real time
+    let rt = tokio::runtime::Builder::new_multi_thread().worker_threads(1).enable_time().build().expect("runtime");
+    let _guard = rt.enter();
     let seed = arg_u64("--seed", 1);
     let mode = arg_value("--mode").unwrap_or_else(|| "dfs".into());
     let mut rng = Rng::new(seed ^ 0xac70);
@@ -282,6 +290,23 @@ fn main() {
                         if !o.ok { bad += 1; if bad <= 5 { emit(kind, cap, clean, &progs, &s, &o); } }
                         else if total % emit_every == 0 { emit(kind, cap, clean, &progs, &s, &o); }
                     }
+                }
+            }
+        }
+        "stall" => {
+            // a request is queued and then nothing runs for a while (the limiter task starved, or a deep backlog in front of it):
+            // the caller must simply keep waiting; once the limiter runs, every request gets the answer of some sequential order
+            STALL_MS.store(arg_u64("--stall-ms", 1300), std::sync::atomic::Ordering::SeqCst);
+            let t0: u64 = 1_700_000_000_000_000_000;
+            for kind in [StoreKind::Per, StoreKind::Ada, StoreKind::Pro] {
+                for cap in [1usize, 8] {
+                    let progs = vec![vec![Rq { key: 9, b: 1, count: 1, period: 3600, q: 1, now_ns: t0 }],
+                                     vec![Rq { key: 9, b: 1, count: 1, period: 3600, q: 1, now_ns: t0 + 1 }]];
+                    let s = vec![0usize, usize::MAX, 0, 2, 0, 1, 2, 1];
+                    let o = run_schedule(kind, cap, false, &progs, &s);
+                    total += 1;
+                    if !o.ok { bad += 1; }
+                    emit(kind, cap, false, &progs, &s, &o);
                 }
             }
         }
